@@ -648,6 +648,13 @@ let () =
               (Monitor.take_fails ())
           with Parse_error e ->
             Printf.printf "MONITOR-PARSE-ERROR case=%s line=%d %s\n" !case_name op_line e);
+         if !skipping && impl = "PANIC" then begin
+           (* the implementation aborts later in a case that had already diverged: still report it *)
+           incr n_mismatch;
+           let opx = if String.length line > 300 then String.sub line 0 300 ^ "..." else line in
+           Printf.printf "MISMATCH case=%s line=%d at=0\n  op:    %s\n  impl:  PANIC\n  model: <not evaluated: this case had already diverged at an earlier operation>\n"
+             !case_name op_line opx
+         end;
          let model =
            if !skipping then None else
            try (match exec c with Obs s -> Some s | Skip -> None) with
